@@ -15,6 +15,7 @@ import itertools
 import json
 import random
 import sys
+import threading
 
 import pendulum
 from pendulum.tz.timezone import Timezone
@@ -22,7 +23,7 @@ from pendulum.tz.timezone import Timezone
 from .obs import observe, raw_fold
 from .ops import Env, Skip, build, execute, op_label
 from .sched import HarnessError, Scheduler
-from .world import World, get_world
+from .world import ZONE_HISTORY, World, get_world, zone_replay, zone_replay_end
 
 _ltz = sys.modules["pendulum.tz.local_timezone"]
 
@@ -67,6 +68,7 @@ def _nemesis(world: World, sched, op, rec, run):
         rec["reg"] = ("cal_fwd", val)
     elif kind == "clear_zone_cache":
         Timezone.clear_cache()
+        ZONE_HISTORY["epoch"] += 1
     elif kind == "fs_put":
         world.fs.put(op[2], op[3])
         rec["fs"] = True
@@ -158,6 +160,7 @@ def simulate(sc, full_digest=True) -> Run:
                         rec["obs"] = None
                         results.append(None)
                     else:
+                        zl = ZONE_HISTORY["log"][threading.get_ident()] = [ZONE_HISTORY["epoch"]]
                         try:
                             res = execute(op, env)
                         except Skip:
@@ -166,6 +169,10 @@ def simulate(sc, full_digest=True) -> Run:
                             raise
                         except Exception as e:
                             res = e
+                        finally:
+                            ZONE_HISTORY["log"].pop(threading.get_ident(), None)
+                        if any(zl):
+                            rec["zlog"] = zl
                         results.append(res)
                         if res is Skip:
                             rec["obs"] = ["SKIP"]
@@ -236,15 +243,19 @@ def assignments(cands: dict):
 def apply_assignment(world: World, sc, asg):
     world.reset(sc.get("world", {}))
     for reg, val in asg.items():
+        if reg.startswith("_"):
+            continue
         if reg == "disc":
             _ltz._local_timezone = None if val is None else World.zone(val)
         else:
             world.set_reg(reg, val)
 
 
-def quiescent_eval(world, sc, op, asg, qres):
+def quiescent_eval(world, sc, op, asg, qres, zlog=None):
     apply_assignment(world, sc, asg)
     pool = [build(s, None) for s in sc.get("pool", [])]
+    if zlog:
+        zone_replay(zlog)
     try:
         res = execute(op, Env(pool, qres))
     except Skip:
@@ -253,6 +264,8 @@ def quiescent_eval(world, sc, op, asg, qres):
         raise
     except Exception as e:
         res = e
+    finally:
+        zone_replay_end()
     try:
         o = observe(res)
     except Exception as e:
@@ -300,7 +313,7 @@ def l1_check(run: Run, prop=None):
             expected = []
             undecidable = False
             for asg in asgs:
-                res, o = quiescent_eval(world, sc, op, asg, qres)
+                res, o = quiescent_eval(world, sc, op, asg, qres, rec.get("zlog"))
                 stats["l1_evals"] += 1
                 if res is Skip:
                     # an input is the result of an earlier op of this client that was itself
@@ -314,7 +327,9 @@ def l1_check(run: Run, prop=None):
                     # flows into the reference evaluation exactly as it did in the simulation
                     qres.append(run.results[name][i])
                     matched = True
-                    run.matched[(name, i)] = asg
+                    run.matched[(name, i)] = dict(asg, _zlog=rec["zlog"]) if rec.get("zlog") else asg
+                    if rec.get("zlog"):
+                        stats["l1_zone_history_replayed"] = stats.get("l1_zone_history_replayed", 0) + 1
                     if relaxed:
                         run.relaxed_ops.add((name, i))
                     break
